@@ -8,6 +8,9 @@ import (
 	"fmt"
 	"strings"
 
+	metav1 "k8s.io/apimachinery/pkg/apis/meta/v1"
+
+	corev1alpha1 "package-operator.run/apis/core/v1alpha1"
 	"package-operator.run/internal/packages/zzverif/checks"
 	"package-operator.run/internal/packages/zzverif/checks/twin"
 	"package-operator.run/internal/packages/zzverif/kmodel"
@@ -37,10 +40,12 @@ type scenario struct {
 	// --cascade=foreground): the ObjectSet also carries the foregroundDeletion finalizer and the
 	// garbage collector deletes the dependents itself, in no particular order
 	Foreground bool `json:"foreground"`
+	// Sliced: every phase keeps all its objects in an ObjectSlice (nothing inline)
+	Sliced bool `json:"sliced"`
 }
 
 func (sc scenario) name() string {
-	return fmt.Sprintf("B1 phases=%d delegated=%03b archive=%v holds=%v restarts=%d takeover=%v conflicts=%d rearchive=%v admissionFaults=%d foreground=%v", sc.N, sc.Mask, sc.Archive, sc.Holds, sc.Restarts, sc.TakeOver, sc.Conflicts, sc.Rearchive, sc.AdmissionFaults, sc.Foreground)
+	return fmt.Sprintf("B1 phases=%d delegated=%03b archive=%v holds=%v restarts=%d takeover=%v conflicts=%d rearchive=%v admissionFaults=%d foreground=%v sliced=%v", sc.N, sc.Mask, sc.Archive, sc.Holds, sc.Restarts, sc.TakeOver, sc.Conflicts, sc.Rearchive, sc.AdmissionFaults, sc.Foreground, sc.Sliced)
 }
 
 func system(sc scenario) *world.System {
@@ -55,7 +60,15 @@ func system(sc scenario) *world.System {
 				w.Budget["unarchive"] = 1
 				w.Budget["rearchive"] = 1
 			}
-			w.MustCreate(world.NewObjectSet("r1", osw.PhaseSpecs(cfg, 1), world.StdProbes()))
+			ps := osw.PhaseSpecs(cfg, 1)
+			if sc.Sliced {
+				for i := range ps {
+					sn := "r1-slice-" + ps[i].Name
+					w.MustCreate(&corev1alpha1.ObjectSlice{ObjectMeta: metav1.ObjectMeta{Name: sn, Namespace: world.NS}, Objects: ps[i].Objects})
+					ps[i].Slices, ps[i].Objects = []string{sn}, nil
+				}
+			}
+			w.MustCreate(world.NewObjectSet("r1", ps, world.StdProbes()))
 			w.MustCreate(world.NewObjectSet("x", nil, nil))
 			if !osw.Settle(w, 40, true) {
 				panic("c04: rollout did not settle")
@@ -178,7 +191,7 @@ func system(sc scenario) *world.System {
 func controlledLater(v osw.View, s *kmodel.Store, osKey kmodel.Key, osContent map[string]any, k, i int) []string {
 	id := world.IdentOf(osKey, osContent)
 	var out []string
-	phases := osw.SpecPhases(osContent, osKey.Namespace)
+	phases := osw.SpecPhasesIn(s, osContent, osKey.Namespace)
 	for j := k + 1; j < len(phases); j++ {
 		for _, ok := range phases[j].Objects {
 			c := v.ContentAt(ok, i)
@@ -253,7 +266,7 @@ func Check(before *world.World, _ world.Event, pass *world.Pass, after *world.Wo
 	if os == nil {
 		return nil
 	}
-	phases := osw.SpecPhases(os.Content, osKey.Namespace)
+	phases := osw.SpecPhasesIn(before.S, os.Content, osKey.Namespace)
 	phaseOf := func(k kmodel.Key) int {
 		for i, p := range phases {
 			if p.Class != "" && k == osw.PhaseKey(osKey.Name, p.Name) {
@@ -331,7 +344,7 @@ func Invariant(w *world.World) []world.Finding {
 		}
 		id := world.IdentOf(k, os)
 		var still []string
-		for _, p := range osw.SpecPhases(os, k.Namespace) {
+		for _, p := range osw.SpecPhasesIn(w.S, os, k.Namespace) {
 			for _, ok := range p.Objects {
 				if o := w.S.Objs[ok]; o != nil && osw.ControlsTransitively(w.S, o.Content, id) {
 					still = append(still, ok.String())
@@ -365,8 +378,10 @@ func scenarios(quick bool) []scenario {
 			out = append(out, scenario{N: 3, Mask: m, Archive: arch, Holds: []string{"c", "b"}, Restarts: 1, TakeOver: true, Conflicts: 1})
 		}
 		if arch {
+			out = append(out, scenario{N: 2, Mask: 0, Archive: true, Holds: []string{"b"}, Sliced: true, Restarts: 1}, scenario{N: 2, Mask: 0b01, Archive: true, Holds: []string{"g"}, Sliced: true})
 			out = append(out, scenario{N: 2, Mask: 0, Archive: true, Holds: []string{"a"}, Rearchive: true})
 		} else {
+			out = append(out, scenario{N: 2, Mask: 0, Holds: []string{"b"}, Sliced: true, Restarts: 1}, scenario{N: 2, Mask: 0b10, Holds: []string{"a"}, Sliced: true})
 			out = append(out, scenario{N: 2, Mask: 0, Holds: []string{"b"}, Foreground: true, Restarts: 1}, scenario{N: 2, Mask: 0b10, Holds: []string{"a", "g"}, Foreground: true})
 		}
 		if !quick {
@@ -390,7 +405,7 @@ func scenarios(quick bool) []scenario {
 
 func run(o checks.Opts) *report.Report {
 	rep := report.New("C04", "bfs")
-	rep.Rule = "explicit-state BFS to closure from the fully rolled-out state: user deletes (background, or foreground propagation with the garbage collector deleting dependents itself) or archives the ObjectSet, then reconcile(ObjectSet / each ObjectSetPhase), finalizer holder releasing foreign finalizers, garbage collector, third party making another ObjectSet the controller of b, (budgeted) an operator crash before request i of a pass for every i, and (budgeted) another actor's write to the target landing just before write i of a pass for every i (delete precondition / update conflict); (budgeted) admission for one managed object starting to answer every write and dry run with a reason-less 500 and healing again, (one system: all passes in one long-lived operator process, the archived ObjectSet set back to Active and archived again); monitors on every delete / finalizer removal / Archived=True write and an invariant on every state"
+	rep.Rule = "explicit-state BFS to closure from the fully rolled-out state (phases inline, or every phase entirely in an ObjectSlice): user deletes (background, or foreground propagation with the garbage collector deleting dependents itself) or archives the ObjectSet, then reconcile(ObjectSet / each ObjectSetPhase), finalizer holder releasing foreign finalizers, garbage collector, third party making another ObjectSet the controller of b, (budgeted) an operator crash before request i of a pass for every i, and (budgeted) another actor's write to the target landing just before write i of a pass for every i (delete precondition / update conflict); (budgeted) admission for one managed object starting to answer every write and dry run with a reason-less 500 and healing again, (one system: all passes in one long-lived operator process, the archived ObjectSet set back to Active and archived again); monitors on every delete / finalizer removal / Archived=True write and an invariant on every state"
 	scs := scenarios(o.Quick())
 	rep.Bounds["systems"] = len(scs)
 	for i, sc := range scs {
